@@ -112,6 +112,27 @@ CLAIMED = {
         "time arithmetic is exact; time quantities are handed over in s/min/h only where conversion is exact (others discarded, counted); "
         "iterate_n(0) and wall-clock run slices are C10/C08's subject; record content is compared by the harness (flag passed to Coq).",
         "DESIGN.md section 6 / C09"),
+    "C10": (
+        "Coq proof that the implementation's single global simulation refines a per-object specification on every lifecycle-respecting one-object history (no undefined behaviour), independence / freshness / idempotence of the specification, fixed-step termination count + exhaustive small-history and random-history correspondence in child processes",
+        "Theorems (Props/C10.v, closed under the global context): for EVERY history of the nine lifecycle calls over one engine object that "
+        "respects the lifecycle (loop / query / output calls only between a set-up and the next finalize; finalize anywhere, any number of "
+        "times) the model of librdengine.py + engine.cpp (one process-global simulation pointer, freed flag, per-object Python status flag; "
+        "dangling / unassigned pointer use and double delete are values of the model) returns exactly what the per-object specification "
+        "returns and never reaches undefined behaviour; in the specification an object's results are those it would return if the other "
+        "object did not exist, a set-up yields the initial simulation of its script whatever happened before and reports 'not complete', "
+        "get_output changes nothing, a second finalize changes nothing; a fixed-step run with N dt <= t_max < (N+1) dt completes after "
+        "exactly N+1 iterations and then stays as it is. Two objects: the implementation does NOT refine the specification "
+        "(C10_two_objects_refuted, known finding F13). Tied to the code on every run: all respecting one-object histories up to 4 (5) "
+        "calls, random histories up to 14 calls over one and two objects, each in a child process with a time limit (crash and hang are "
+        "observations), every return value compared in Coq; whole runs of random scripts (three engines, four init_state_processing modes, "
+        "amounts below one molecule) must return and complete after floor(t_max/dt)+1 iterations.",
+        "Trusted: Coq kernel + VM; the hand-written lifecycle models (the simulation inside is the sampling machine of C09 with the "
+        "chemical state abstracted) tied by exhaustive-to-length-4 + sampled correspondence; run(ms) is exercised with ms = 0 only (one "
+        "iteration; wall-clock slicing is C08's subject); non-termination is observed as 'no return within 12-15 s'; Gillespie runs are only "
+        "required to return from every call (their number of events is not bounded by the model). Known findings: F13 (shared global "
+        "simulation: two-object disagreements that the shared-global model reproduces exactly), F20 (tau-leap on autocatalytic networks: "
+        "Poisson sampler called with an astronomically large mean does not return).",
+        "DESIGN.md section 6 / C10"),
     "C13": (
         "Coq proof of layout (species-major index), value (SI of density x volume), units and get/set array laws + random-system correspondence",
         "Theorems (Props/C13.v, closed under the global context, any number of species/cells/environments, grid or graph): entry "
